@@ -305,6 +305,13 @@ def check_c17(budget):
                     return {"kind": "region", "pid": "C17", "op": "frozen", "args": [], "observed": "field assignment succeeded"}, ev
                 except dataclasses.FrozenInstanceError:
                     pass
+                for fld in ("data", "sampling_rate", "sample_width", "channels"):
+                    r_ = AudioRegion(bytes(2 * sw * ch), sr, sw, ch)
+                    try:
+                        delattr(r_, fld)
+                        return {"kind": "region", "pid": "C17", "op": "frozen", "args": [], "observed": "del region.%s succeeded (regions are immutable)" % fld}, ev
+                    except (dataclasses.FrozenInstanceError, AttributeError, TypeError):
+                        pass
             for extra in range(1, sw * ch):
                 ev += 1
                 try:
@@ -332,6 +339,14 @@ def check_c17(budget):
                             "observed": "no AudioParameterError when one operand is empty"}, ev
                 except AudioParameterError:
                     pass
+    # silence generation has no memory: same byte count and rate, other width / channels
+    for (a1, a2) in (((0.5, 8, 2, 1), (0.5, 8, 1, 2)), ((1.0, 4, 4, 1), (1.0, 4, 2, 2)), ((0.5, 8, 1, 2), (0.25, 8, 2, 2))):
+        ev += 1
+        make_silence(*a1)
+        s2 = make_silence(*a2)
+        if (s2.sr, s2.sw, s2.ch, len(s2)) != (a2[1], a2[2], a2[3], round(a2[0] * a2[1])) or any(bytes(s2)):
+            return {"kind": "region", "pid": "C17", "op": "make_silence-history", "args": [list(a1), list(a2)],
+                    "observed": "make_silence%r after make_silence%r has parameters %r and %d samples" % (a2, a1, (s2.sr, s2.sw, s2.ch), len(s2))}, ev
     for sr in (10, 16, 11025, 22050, 8, 3):
         for num in range(0, 41):
             for den in (1, 2, 4, 8, 3, 16):
